@@ -36,8 +36,8 @@ type c19Read struct {
 	Class string `json:"class"`
 }
 type c19Facts struct {
-	Sites []c19Site `json:"sites"`
-	Reads []c19Read `json:"dryrun_reads"`
+	Sites []c19Site           `json:"sites"`
+	Reads []c19Read           `json:"dryrun_reads"`
 	funcs map[string]*c19Func // key "pkgdir|bare name" -> all functions/methods of that name
 }
 
@@ -56,16 +56,16 @@ type c19Func struct {
 }
 
 type c19x struct {
-	fset  *token.FileSet
-	file  string
-	fn    string
-	pkg   string
-	bare  string
-	recv  string
-	cur   *c19Func
-	refs  []string // identifiers seen outside call position
+	fset   *token.FileSet
+	file   string
+	fn     string
+	pkg    string
+	bare   string
+	recv   string
+	cur    *c19Func
+	refs   []string // identifiers seen outside call position
 	inCall map[ast.Node]bool
-	facts *c19Facts
+	facts  *c19Facts
 	// positions of .DryRun selectors already classified (if conditions, assignments)
 	seen map[token.Pos]bool
 }
